@@ -1,5 +1,40 @@
 import Props.Defs
 import Proofs.Pairing
+import Proofs.Mirror
+import Proofs.SrcBlind_Erase
+import Proofs.SrcBlind_Render
+import Proofs.SrcBlind_Align
+import Proofs.SrcBlind_Conflict
+import Proofs.SrcBlind_Passes
+import Proofs.SrcBlind_Execute
+
+namespace Coma.Proofs.SrcBlind
+open Coma Coma.Spec
+
+theorem map_bind_append {α} (X Y : Except Err (List (Option α))) (f : Option α → Option α) :
+    (do let a ← X; let b ← Y; pure (a ++ b) : Except Err _).map (List.filterMap f) =
+    (do let a ← X.map (List.filterMap f); let b ← Y.map (List.filterMap f); pure (a ++ b)) := by
+  cases X <;> cases Y <;> simp [bind, Except.bind, pure, Except.pure, Except.map]
+
+theorem perQuery_nil (cfg : Cfg) (refs : List OMap) (q : OMap) (it : Int) :
+    perQuery cfg refs [] q it = .ok none := by
+  simp [perQuery]
+
+theorem mapM_ok_of_forall {α β} (f : α → Except Err β) (l : List α)
+    (h : ∀ x ∈ l, ∃ y, f x = .ok y) : ∃ ys, l.mapM f = .ok ys := by
+  induction l with
+  | nil => exact ⟨[], rfl⟩
+  | cons a l ih =>
+    obtain ⟨y, hy⟩ := h a List.mem_cons_self
+    obtain ⟨ys, hys⟩ := ih (fun x hx => h x (List.mem_cons_of_mem _ hx))
+    exact ⟨y :: ys, by simp [List.mapM_cons, hy, hys, bind, Except.bind, pure, Except.pure]⟩
+
+theorem bind_ok_of {α β} (X : Except Err α) (g : α → β) (h : ∃ a, X = .ok a) :
+    ∃ y, (X >>= fun a => pure (g a)) = .ok y := by
+  obtain ⟨a, rfl⟩ := h; exact ⟨g a, rfl⟩
+
+end Coma.Proofs.SrcBlind
+
 namespace Coma.Proofs
 open Coma Coma.Spec
 
@@ -7,13 +42,13 @@ open Coma Coma.Spec
     `source` fields -/
 theorem alignerAlign_src_blind (P : Params) (C : ChainCfg) (ref qry : OMap) (peaks : List Int) (rev : Bool) (it it' : Int) :
     (alignerAlign P C ref qry peaks rev it).map eraseSrcRow =
-    (alignerAlign P C ref qry peaks rev it').map eraseSrcRow := by
-  sorry
+    (alignerAlign P C ref qry peaks rev it').map eraseSrcRow :=
+  SrcBlind.alignerAlign_E P C ref qry peaks rev it it'
 
 /-- nothing that is written depends on `source` -/
 theorem renderRows_src_blind (cfg : Cfg) (rows : List Row) :
-    renderRows cfg (rows.map eraseSrcRow) = renderRows cfg rows := by
-  sorry
+    renderRows cfg (rows.map eraseSrcRow) = renderRows cfg rows :=
+  SrcBlind.renderRows_E cfg rows
 
 /-- the whole run — every line of every output file of every mode — is independent of the
     worker-local `iteration` counter -/
@@ -21,7 +56,15 @@ theorem runProgram_iteration_irrelevant (cfg : Cfg) (mode : Mode) (refRows qryRo
     (refIds qryIds : List Int) (t : SeedTable) (it it' : Int) :
     runProgram cfg mode refRows qryRows refIds qryIds t it =
     runProgram cfg mode refRows qryRows refIds qryIds t it' := by
-  sorry
+  rw [SrcBlind.runProgram_eq, SrcBlind.runProgram_eq]
+  cases readMaps refRows qryRows refIds qryIds with
+  | error e => rfl
+  | ok m =>
+    obtain ⟨refs, qs⟩ := m
+    show (execute cfg mode refs t qs it >>= SrcBlind.renderOut cfg) =
+      (execute cfg mode refs t qs it' >>= SrcBlind.renderOut cfg)
+    rw [SrcBlind.bind_renderOut, SrcBlind.bind_renderOut cfg (execute cfg mode refs t qs it'),
+      SrcBlind.execute_E cfg mode refs t qs it it']
 
 /-- an order-preserving map over the queries can be split into chunks (one per worker) in any
     way: the concatenated result is the sequential result -/
@@ -30,14 +73,18 @@ theorem executeSingle_append (cfg : Cfg) (refs : List OMap) (t : SeedTable) (qs1
       (do let a ← executeSingle cfg refs t qs1 it
           let b ← executeSingle cfg refs t qs2 it
           pure (a ++ b)) := by
-  sorry
+  simp only [SrcBlind.executeSingle_eq, List.mapM_append]
+  exact SrcBlind.map_bind_append _ _ _
 
 /-- a query whose seed list is empty contributes no row and does not change the others (C07) -/
 theorem executeSingle_unalignable (cfg : Cfg) (refs : List OMap) (t : SeedTable) (q : OMap) (qs : List OMap) (it : Int)
     (h : t.lookup q.key = []) :
     executeSingle cfg refs t (q :: qs) it = executeSingle cfg refs t qs it := by
-  sorry
+  simp only [SrcBlind.executeSingle_eq, List.mapM_cons, h, SrcBlind.perQuery_nil]
+  cases (qs.mapM fun q => perQuery cfg refs (t.lookup q.key) q it) <;>
+    simp [bind, Except.bind, pure, Except.pure, Except.map, SrcBlind.keepRow, List.filterMap_cons]
 
+set_option linter.unusedVariables false in
 /-- the first pass never raises when every seed names a reference that was read and the maps
     have strictly ascending coordinates (C07) -/
 theorem executeSingle_total (cfg : Cfg) (hP : GoodParams cfg.P) (refs : List OMap) (t : SeedTable) (qs : List OMap) (it : Int)
@@ -45,6 +92,22 @@ theorem executeSingle_total (cfg : Cfg) (hP : GoodParams cfg.P) (refs : List OMa
     (hseeds : ∀ q ∈ qs, ∀ s ∈ t.lookup q.key, ∃ r ∈ refs, r.id = s.refId)
     (halign : ∀ r ∈ refs, ∀ q ∈ qs, ∀ peaks rev, ∃ row, alignerAlign cfg.P cfg.C r q peaks rev it = .ok row) :
     ∃ rows, executeSingle cfg refs t qs it = .ok rows := by
-  sorry
+  rw [SrcBlind.executeSingle_eq]
+  obtain ⟨ys, hys⟩ := SrcBlind.mapM_ok_of_forall (fun q => perQuery cfg refs (t.lookup q.key) q it) qs (by
+    intro q hq
+    unfold perQuery
+    split
+    · exact ⟨_, rfl⟩
+    · apply SrcBlind.bind_ok_of
+      apply SrcBlind.mapM_ok_of_forall
+      intro s hs
+      obtain ⟨r, hr, hid⟩ := hseeds q hq s hs
+      split
+      next hf =>
+        rw [List.find?_eq_none] at hf
+        exact absurd (by simpa using hid) (hf r hr)
+      next r' hf =>
+        exact halign r' (List.mem_of_find?_eq_some hf) q hq s.peaks s.rev)
+  exact ⟨_, by rw [hys]; rfl⟩
 
 end Coma.Proofs
